@@ -28,7 +28,7 @@ RULE = (
 )
 ASSUMPTIONS = ["all renames of a case stay inside one history (the top one, or one nested child while the command runs on the parent), default ignore patterns, file contents pairwise distinct", "one rename step per file between two generations"]
 BUDGET = {"quick": (200, 4), "thorough": (36000, 16)}
-REQUIRED = ["multi_rename", "cross_dir_move", "unrelated_new", "second_round", "renamed_back", "other_format", "-n", "new_directory", "altered_after", "nested_child", "hidden_former_name", "consecutive_dr_generations", "root_spelled_dot", "sf_generation_before_rename", "one_empty_file"]
+REQUIRED = ["multi_rename", "cross_dir_move", "unrelated_new", "second_round", "renamed_back", "other_format", "-n", "new_directory", "altered_after", "nested_child", "hidden_former_name", "consecutive_dr_generations", "root_spelled_dot", "sf_generation_before_rename", "one_empty_file", "whole_folder_renamed", "pattern_matching_former_name", "folder_rename_not_detectable"]
 
 
 @st.composite
@@ -122,6 +122,16 @@ def enumerated(tier):
                 {"renames": [["a.mov", "a1.mov"], ["d/c.mov", "c1.mov"]], "new": [], "formats": ["md5"], "n": False, "newdir": False, "back": False},
                 {"renames": [["a1.mov", "a.mov"], ["c1.mov", "d/c.mov"]], "new": [], "formats": ["md5"], "n": False, "newdir": False, "back": True},
                 {"renames": [["a.mov", "d/a3.mov"], ["d/c.mov", "c3.mov"], ["b.mov", "b3.mov"]], "new": ["fresh3.mov"], "formats": fm3, "n": False, "newdir": False, "back": False}])
+    # a whole folder is renamed (all files below it move at once); the folder was first recorded without directory hashes
+    for gens_n in ([False], [True, False], [False, True], [True]):
+        for n in (False, True):
+            yield dict(base, gens=[["md5"]] * len(gens_n), gens_n=gens_n, plain_create_between=True, spell="abs", rounds=[
+                {"renames": [["d/c.mov", "d moved/c.mov"], ["d/e.mov", "d moved/e.mov"]], "dirmove": ["d", "d moved"], "new": [], "formats": ["md5"], "n": n, "newdir": False, "back": False}])
+    # the run that records a rename also introduces a pattern that matches the file's former name
+    for pat in ("a.mov", "*.tmp"):
+        t2 = dict(tree, **{"render.tmp": "rendered"})
+        yield dict(base, tree=t2, plain_create_between=True, spell="abs", rounds=[
+            {"renames": [["a.mov", "a final.mov"], ["render.tmp", "d/render final.mov"], ["b.mov", "b2.mov"]], "ignore_old": pat, "new": [], "formats": ["md5"], "n": False, "newdir": False, "back": False}])
     for sf in (0, 1, 3):
         yield dict(base, rounds=[dict(two_steps[0], formats=["xxh64"], n=True)], plain_create_between=True, spell="abs", sf_generation=sf)
     # a nested child history: a file inside it is renamed to a name that, relative to the child, equals a path the parent records
@@ -155,8 +165,12 @@ def _missing_block(out):
 
 
 def _apply_round(w, rnd):
-    for src, dst in rnd["renames"]:
-        w.mv("R/" + src, "R/" + dst)
+    if rnd.get("dirmove"):
+        # the whole folder is renamed in one go: every file below it moves (that is what "renames" lists)
+        w.mv("R/" + rnd["dirmove"][0], "R/" + rnd["dirmove"][1])
+    else:
+        for src, dst in rnd["renames"]:
+            w.mv("R/" + src, "R/" + dst)
     for i, p in enumerate(rnd["new"]):
         w.put("R/" + p, "unrelated new file %d %s" % (i, p))
 
@@ -179,8 +193,8 @@ def run_case(scn, ctx):
             if scn.get("child"):
                 res = x.create("R/" + scn["child"], scn["gens"][0])
                 require(res.exc is None and res.exit_code == 0, "setup", res.brief(), res)
-            for fm in scn["gens"]:
-                res = x.create("R", fm)
+            for gi, fm in enumerate(scn["gens"]):
+                res = x.create("R", fm, flags=["-n"] if gi < len(scn.get("gens_n") or []) and scn["gens_n"][gi] else [])
                 require(res.exc is None and res.exit_code == 0, "setup", res.brief(), res)
         if scn.get("sf_generation") is not None and allfiles:
             sff = allfiles[scn["sf_generation"] % len(allfiles)]
@@ -198,11 +212,28 @@ def run_case(scn, ctx):
             _apply_round(w, rnd)
             flags = ["-dr"] + (["-n"] if rnd["n"] else [])
             spell = scn.get("spell", "abs")
-            res = w.create("R", rnd["formats"], flags=flags, spell=spell)
+            extra = []
+            if rnd.get("ignore_old"):
+                # the same run introduces an ignore pattern that matches the former name of a renamed file
+                extra = ["-i", rnd["ignore_old"]]
+                feats.add("pattern_matching_former_name")
+            if rnd.get("dirmove"):
+                feats.add("whole_folder_renamed")
+            res = w.create("R", rnd["formats"], flags=flags, spell=spell, extra=extra)
             what = "round %d renames %s new %s: %s" % (ri + 1, rnd["renames"], rnd["new"], res.brief())
             require(res.exc is None, "dr-no-abort", what, res)
-            require(res.exit_code == 0, "dr-exit", what + "\n" + res.output[-500:], res)
-            require(_missing_block(res.output) is None, "dr-none-missing", "create -dr reports missing files: %s\n%s" % (what, res.output[-400:]), res)
+            # a whole-folder rename is recognised through the folder's directory hash; without one (this run or all earlier
+            # generations made with -n) the old *folder* is legitimately reported missing - the files never are
+            gens_n = scn.get("gens_n") or []
+            dir_undetectable = bool(rnd.get("dirmove")) and (rnd["n"] or (len(gens_n) >= len(scn["gens"]) and all(gens_n)))
+            if dir_undetectable:
+                olddirs = {rnd["dirmove"][0]} | {d_[2:] for d_ in tw.media_dirs("R") if d_.startswith("R/" + rnd["dirmove"][0] + "/")}
+                mb0 = _missing_block(res.output)
+                require(res.exit_code in (0, 10) and (mb0 or set()) <= olddirs, "dr-none-missing", "create -dr after a folder rename reports more than the old folder(s) %s missing: %s\n%s" % (sorted(olddirs), what, res.output[-400:]), res)
+                feats.add("folder_rename_not_detectable")
+            else:
+                require(res.exit_code == 0, "dr-exit", what + "\n" + res.output[-500:], res)
+                require(_missing_block(res.output) is None, "dr-none-missing", "create -dr reports missing files: %s\n%s" % (what, res.output[-400:]), res)
             doc = w.read_history("R")[-1][2]
             prev = {r["path"]: r["previous"] for r in doc["records"]}
             child_kinds = {}
@@ -223,7 +254,7 @@ def run_case(scn, ctx):
                     # (only file records: a folder that the moves left empty hashes like an empty file and may be taken
                     # for its new place - a directory record's previous path is not part of the statement)
                     require(pv is None, "dr-false-previous", "record %r (not renamed) has previousPath %r (%s)" % (p, pv, what), res)
-            for cmd in ("verify", "diff", "create"):
+            for cmd in ("verify", "diff", "create") if not dir_undetectable else ():
                 if cmd == "create" and not scn.get("plain_create_between", True) and not last:
                     feats.add("consecutive_dr_generations")
                     continue
